@@ -468,7 +468,7 @@ where
 				None => None,
 			};
 			let batch = batch.build()?;
-			let id = self.id_manager.next_request_id();
+			let id = self.id_manager.next_batch_request_id(batch.len() as u64);
 			let id_range = generate_batch_id_range(id, batch.len() as u64)?;
 
 			let mut batch_request = Batch::with_capacity(batch.len());
